@@ -491,6 +491,32 @@ def C06.bad (c : Ctx) (j : Journal) : List String :=
         (if adds != 0 then ["taint-above-scale-up-threshold"] else [])
       else []
 
+/-! ### C05 — scale-up from zero, against the node size last observed (tracked by the driver, not by the model state) -/
+
+/-- `seen`: the size (milli-CPU, bytes) of the group's nodes as last observed in this controller lifetime
+    (`none`: never observed). With no untainted node and some request, the decision must be exactly 1 when
+    no node was ever observed, and otherwise within [need, need+1] for
+    `need = max(⌈100·Rcpu/(c·T)⌉, ⌈100·Rmem/(m·T)⌉)`. Judged under the same conditions as the bands. -/
+def C05.badFromZero (c : Ctx) (seen : Option (Int × Int)) (obsDelta : Int) : List String :=
+  let unt := nodesOf c.dry c.st .untainted c.view.nodes
+  let n : Int := c.view.nodes.length
+  let pu := podsUsage c.view.pods
+  if c.dry || lockHeld c.st.lock c.cfg.coolNs c.nowReal || n < c.st.minEff || n > c.st.maxEff ||
+     unt.length != 0 || c.st.minEff > 0 || (pu.total.cpu ≤ 0 && pu.total.mem ≤ 0) || pu.total.cpu < 0 || pu.total.mem < 0 ||
+     c.cfg.scaleUp ≤ 0 || c.cfg.maxAgeNs > 0 then []
+  else
+    match seen with
+    | none => if obsDelta == 1 then [] else ["from-zero-never-observed-decision-" ++ toString obsDelta]
+    | some (cpu, mem) =>
+      if cpu ≤ 0 || mem ≤ 0 then [] else
+      let need : Int := max (((100 * pu.total.cpu : Int) / ((cpu * c.cfg.scaleUp : Int) : Rat)).ceil)
+                            (((100 * pu.total.mem : Int) / ((mem * c.cfg.scaleUp : Int) : Rat)).ceil)
+      -- the starve trigger may raise a smaller decision to 1
+      let need := max need 1
+      if obsDelta < need then ["from-zero-short:need-" ++ toString need ++ "-decided-" ++ toString obsDelta]
+      else if obsDelta > need + 1 then ["from-zero-over:need-" ++ toString need ++ "-decided-" ++ toString obsDelta]
+      else []
+
 /-- scale_on_starve as documented ("a pod that cannot currently be scheduled due to no node having
     capacity to run it"): some pending pod asks, in CPU or in memory, for more than nothing and for
     more than any untainted node has left. -/
